@@ -17,8 +17,9 @@ import traceback
 
 VERIF = os.path.dirname(os.path.dirname(os.path.abspath(__file__)))
 REPO = os.environ.get("VERIF_REPO", "/repo")
-EVIDENCE_DIR = os.path.join(VERIF, "evidence")
-REPLAY_DIR = os.path.join(VERIF, "replays")
+REPO_SRC = os.environ.get("VERIF_REPO_SRC", os.path.join(REPO, "src"))
+EVIDENCE_DIR = os.environ.get("VERIF_EVIDENCE_DIR") or os.path.join(VERIF, "evidence")
+REPLAY_DIR = os.environ.get("VERIF_REPLAY_DIR") or os.path.join(VERIF, "replays")
 KNOWN_FINDINGS = os.path.join(VERIF, "known_findings.json")
 EVIDENCE_SCHEMA = "/root/.vp/EVIDENCE.schema.json"
 
@@ -212,6 +213,77 @@ class Run:
         if self.harness_errors:
             sys.exit(EXIT_HARNESS)
         sys.exit(EXIT_OK)
+
+
+class Recorder:
+    """Run-like event recorder for worker processes; `replay_into(run)` applies the events in the parent."""
+
+    def __init__(self, run=None, args=None, bounds=None, tier="quick", seed=0):
+        self.events = []
+        self.args = run.args if run is not None else args
+        self.bounds = dict(run.bounds) if run is not None else (bounds or {})
+        self.tier = run.tier if run is not None else tier
+        self.seed = run.seed if run is not None else seed
+        self.extra = {}
+
+    def ok(self, cls, key=None, nontrivial=True):
+        self.events.append(("ok", cls, key, nontrivial))
+
+    def inconc(self, cls, key, reason):
+        self.events.append(("inconc", cls, key, reason))
+
+    def violation(self, cls, key, what, witness):
+        self.events.append(("violation", cls, key, what, json.loads(json.dumps(witness, default=str))))
+
+    def harness_error(self, msg):
+        self.events.append(("harness_error", msg))
+
+    def sample(self, s, limit=12):
+        self.events.append(("sample", json.loads(json.dumps(s, default=str)), limit))
+
+    def note_solver(self, res):
+        self.events.append(("solver", getattr(res, "time", 0.0), getattr(res, "backend", None)))
+
+    def replay_into(self, run):
+        replay_events(run, self.events)
+
+
+def replay_events(run, events):
+    for e in events:
+        k = e[0]
+        if k == "ok":
+            run.ok(e[1], e[2], e[3])
+        elif k == "inconc":
+            run.inconc(e[1], e[2], e[3])
+        elif k == "violation":
+            run.violation(e[1], e[2], e[3], e[4])
+        elif k == "harness_error":
+            run.harness_error(e[1])
+        elif k == "sample":
+            run.sample(e[1], e[2])
+        elif k == "solver":
+            run.solver_time += e[1]
+            if e[2]:
+                run.backend_wins[e[2]] = run.backend_wins.get(e[2], 0) + 1
+
+
+def parallel_map(fn, items, nproc):
+    """fork-based map preserving order; fn must be a module-level function; items picklable (or indices into a
+    module-level global set before the call).  Exceptions in a worker are returned as ('error', text)."""
+    import multiprocessing as mp
+
+    if nproc <= 1 or len(items) <= 1:
+        return [_guard(fn, it) for it in items]
+    ctx = mp.get_context("fork")
+    with ctx.Pool(processes=min(nproc, len(items))) as pool:
+        return pool.starmap(_guard, [(fn, it) for it in items], chunksize=1)
+
+
+def _guard(fn, it):
+    try:
+        return fn(it)
+    except Exception:
+        return ("error", traceback.format_exc())
 
 
 def _validate(ev: dict) -> str | None:
